@@ -27,7 +27,7 @@ pub fn le(v: u64, w: usize) -> Vec<u8> { (0..w).map(|i| (v >> (8 * i)) as u8).co
 pub struct Meta { pub canonical: bool, pub invalid: bool, pub unrepresentable: bool, pub rows: usize, pub notes: Vec<&'static str> }
 
 pub const TRACKS: [&str; 8] = ["BL1", "SO1R", "RO10X", "LA2X", "AS7Y", "FE3", "KY2R", "WE5X"];
-pub const VERSIONS: [&str; 8] = ["0.7A", "0.6W43", "0.7E15", "0.04K", "1A", "0.7F", "12.5Z9", "0.7D64"];
+pub const VERSIONS: [&str; 12] = ["0.7A", "0.6W43", "0.7E15", "0.04K", "1A", "0.7F", "12.5Z9", "0.7D64", "0.7D0", "0.6A0", "0.7E1234", "0.7E10"];
 pub const CARS: [&str; 6] = ["XFG", "XRT", "FBM", "BF1", "UF1", "FO8"];
 const TEXT_ALPHA: &[u8] = b"abcdefghijklmnopqrstuvwxyzABCDEFGHIJKLMNOPQRSTUVWXYZ0123456789 .,-_!()[]";
 
